@@ -568,5 +568,5 @@ def rule_MK5(ctx, rep):
             rep.ok('MK5', fn, site, 't+1 distinct senders contribute without PRSS')
         else:
             rep.bad('MK5', fn, site, 'the number of senders without PRSS is not t+1', fn.node)
-    if n < 4:
+    if n < 3:       # one divisor site per function at least (the two PRSS cases may share one conditional divisor)
         raise AnalysisError('MK5: contributor-count sites not found')
